@@ -312,11 +312,27 @@ Section Steps.
   | CFinal (consumed : nat)
   | CThrow.
 
+  (* after the last-chunk ("0" CRLF): trailer fields, each a line ending in CRLF, then the CRLF that ends the chunked body
+     (fix of the third seeding round; before, any two bytes behind the last-chunk ended the message).  A line that is not
+     complete yet leaves the cursor at its start. *)
+  Fixpoint trailers (fuel : nat) (body : bytes) (already : N) (rest : bytes) (pre : nat) : cres :=
+    match fuel with
+    | O => CIncomplete body (Some (0%N, already)) pre
+    | S f =>
+        match rest with
+        | a :: b :: _ =>
+            if ascii_eqb a c_cr && ascii_eqb b c_lf then CFinal (pre + 2)
+            else match find_eol rest with
+                 | None => CIncomplete body (Some (0%N, already)) pre
+                 | Some i => trailers f body already (skipn (i + 2) rest) (pre + (i + 2))
+                 end
+        | _ => CIncomplete body (Some (0%N, already)) pre
+        end
+    end.
+
   (* the part of Chunk::parse after the size is known *)
   Definition chunk_data (size already : N) (body : bytes) (rest : bytes) (pre : nat) : cres :=
-    if (size =? 0)%N then
-      if (length rest <? 2)%nat then CIncomplete body (Some (size, already)) pre
-      else CFinal (pre + 2)
+    if (size =? 0)%N then trailers (S (length rest)) body already rest pre
     else
       let avail := Z.of_nat (length rest) in
       let missing := (Z.of_N size - Z.of_N already)%Z in
